@@ -423,7 +423,7 @@ def run(ctx):
         if quick:
             runs.append(dict(sub="fresh", n=260, nm=21, nm0=30, nb=6, ne=6, nes=1, engines="mem"))
         else:
-            runs.append(dict(sub="fresh", n=3600, nm=250, nm0=350, nb=100, ne=50, nes=8, engines="mem,pebble,rocksdb"))
+            runs.append(dict(sub="fresh", n=3300, nm=240, nm0=330, nb=90, ne=45, nes=6, engines="mem,pebble,rocksdb"))
             runs.append(dict(sub="fresh-pebble-live", n=0, nb=30, ne=15, engines="pebble"))
 
     all_mism, all_fail, total, evals, hist_all, samples, distinct = [], [], 0, 0, {}, [], set()
